@@ -19,7 +19,7 @@ Streams of C19 (hex = hex-encoded bytes).
   c19.link    hex                      out = resources
   c19.record  hex                      out = out=<hex>;err=<hex>;fin=<eof|ueof|badver>
   c19.pairs   klen vlen                out = ok:<wire length> | PANIC:<class>
-  c19.status  hex                      out = req=<err | code,hex of resp.Status>;serve=<ret>,<code written | ->  | PANIC:<class>
+  c19.status  hex                      out = req=<err | code>;serve=<ret>,<code written | ->  | PANIC:<class>
               hex = the value of the responder's Status header as textproto delivers it; through the real
               FCGIClient.Request and the real fastcgi Handler.ServeHTTP (loopback responder)
   c19.explore …                        out = ok | PANIC  (no model: exploration of handler entry points)
@@ -281,7 +281,7 @@ def statusModel : List String → String
       | .ok r, .ok s =>
         let req := match r with
           | none => "err"
-          | some r => s!"{r.code},{Driver.hex r.status}"
+          | some r => s!"{r.code}"
         let srv := match s with
           | .badGateway => "502,-"
           | .wrote c => s!"0,{c}"
